@@ -13,15 +13,16 @@ from common import Proc
 
 
 def model_graph(nodes):
-    """edge list, NEWEST FIRST as far as the public API shows it: for every node the edge from `parent(n)` (the newest
-    incoming one) is put before its other incoming edges; `child` does not depend on the order of distinct labels."""
-    first, rest = [], []
+    """edge list, NEWEST FIRST as far as the public API shows it: `parent(n)` is the source of the OLDEST incoming edge
+    (92c8ba5), so for every node the edge from its parent is put after its other incoming edges; `child` does not
+    depend on the order of distinct labels."""
+    parent_edges, rest = [], []
     for n in nodes:
         for (label, t) in n["children"]:
             e = [n["nx"], label, t]
             tp = next((m["parent"] for m in nodes if m["nx"] == t), None)
-            (first if tp == n["nx"] else rest).append(e)
-    return first + rest
+            (parent_edges if tp == n["nx"] else rest).append(e)
+    return rest + parent_edges
 
 
 class ModelTie:
